@@ -116,7 +116,8 @@ Filters::Filters():
    mpLevelFilter( nullptr)
 {
 
-   setDuplicatePolicy( detail::DuplicatePolicy::ignore);
+   if (mpDuplicatePolicy.get() == nullptr)
+      setDuplicatePolicy( detail::DuplicatePolicy::ignore);
 
 } // Filters::Filters
 
